@@ -412,12 +412,131 @@ class LoopCounter:
         self.n = 0
 
 
+def _find_for_each(body):
+    """T12 candidates: statements of the shape `RECV.for_each(|PAT| BODY);` in this token list (not inside nested
+    groups - those are found when the nested group is processed). start index -> description"""
+    n = len(body)
+    depth, d, stack = [0] * n, 0, []
+    for i, t in enumerate(body):
+        if t.kind == 'punct' and t.text in rsscan.OPEN:
+            depth[i] = d
+            stack.append(i)
+            d += 1
+        elif t.kind == 'punct' and t.text in rsscan.CLOSE:
+            d -= 1
+            depth[i] = d
+            if stack:
+                stack.pop()
+        else:
+            depth[i] = d
+    found = {}
+    for i, t in enumerate(body):
+        if not (t.kind == 'ident' and t.text == 'for_each' and t.origin == 'orig'):
+            continue
+        pv = prev_sig(body, i - 1)
+        op = next_sig(body, i + 1)
+        if pv < 0 or body[pv].text != '.' or op >= n or body[op].text != '(':
+            continue
+        cl = match_close(body, op)
+        semi = next_sig(body, cl + 1)
+        if semi >= n or body[semi].text != ';':
+            continue
+        a = next_sig(body, op + 1)
+        if a >= cl or body[a].text != '|':
+            continue
+        b = a + 1
+        while b < cl and not (body[b].kind == 'punct' and body[b].text == '|'):
+            b += 1
+        if b >= cl:
+            continue
+        # statement start: after the previous `;` / `}` at this depth, or at the start of the list
+        st = 0
+        j = pv - 1
+        dd = depth[pv]
+        while j >= 0:
+            x = body[j]
+            if x.kind == 'punct' and ((depth[j] == dd and x.text in (';', '}')) or (depth[j] == dd - 1 and x.text == '{')):
+                st = j + 1
+                break
+            j -= 1
+        st = next_sig(body, st)
+        found[st] = dict(dot=pv, name=i, open=op, close=cl, semi=semi, bar1=a, bar2=b)
+    return found
+
+
 def _desugar(body, spec, ctr, dropped, used):
     """T3 for `for` loops; loop-spec splices for for/while/loop. Pre-order loop ordinals."""
     out = []
     i, n = 0, len(body)
+    fes = _find_for_each(body)
     while i < n:
         t = body[i]
+        if i in fes:
+            # T12: `RECV.for_each(|PAT| BODY);` is `for PAT in RECV { BODY }` (the definition of Iterator::for_each: the
+            # closure is called on every item in iteration order), emitted directly in the T3 loop form. A closure that
+            # captures `&mut` state (which Verus does not have) becomes an ordinary loop body. A receiver `X.iter()`
+            # whose X is a temporary is bound first so that it lives as long as the statement does.
+            fe = fes[i]
+            k = ctr.n
+            ctr.n += 1
+            if hasattr(ctr, 'pats'):
+                ctr.pats[k] = [x.text for x in body[fe['bar1'] + 1:fe['bar2']] if x.kind == 'ident' and x.text not in ('mut', 'ref', '_')]
+            sec = lambda nm: (spec.sections.get(('loop', k, nm)) if spec else None)
+            for nm in ('pre', 'spec', 'post', 'outer', 'body-start', 'body-end'):
+                if sec(nm) is not None:
+                    used.add(('loop', k, nm))
+            if sec('outer') is not None:
+                out += splice_toks(sec('outer'))
+            recv = body[i:fe['dot']]
+            pat = body[fe['bar1'] + 1:fe['bar2']]
+            cb = _trim(body[fe['bar2'] + 1:fe['close']])
+            dropped.append(('T12', 'for_each', [body[fe['dot']], body[fe['name']], body[fe['open']], body[fe['bar1']],
+                                                body[fe['bar2']], body[fe['close']], body[fe['semi']]]))
+            it = '__it%d' % k
+            rs = [x for x in recv if x.sig()]
+            tmp = None
+            if len(rs) >= 4 and rs[-1].text == ')' and rs[-2].text == '(' and rs[-3].text == 'iter' and rs[-4].text == '.' \
+                    and any(x.text == '(' for x in rs[:-4]):
+                # RECV = X.iter() with a call inside X: bind the temporary
+                cut = max(ix for ix, x in enumerate(recv) if x is rs[-4])
+                tmp = '__fe%d' % k
+                out += lit('{ let %s = ' % tmp, 'T12') + _trim(_desugar(recv[:cut], spec, ctr, dropped, used)) + lit(';\n', 'T12')
+                out += lit('{ let mut %s = IntoIterator::into_iter(%s' % (it, tmp), 'T12') + recv[cut:]
+            else:
+                out += lit('{ let mut %s = IntoIterator::into_iter(' % it, 'T12')
+                out += _trim(_desugar(recv, spec, ctr, dropped, used))
+            out += lit(');\n', 'T12')
+            if sec('pre') is not None:
+                out += splice_toks(sec('pre'))
+            out += lit('loop\n', 'T12')
+            if sec('spec') is not None:
+                out += splice_toks(sec('spec'))
+            out += lit('{ match %s.next() { Some(' % it, 'T12') + _trim(pat) + lit(') => ', 'T12')
+            is_block = cb and cb[0].kind == 'punct' and cb[0].text == '{' and match_close(cb, 0) == len(cb) - 1
+            if is_block:
+                out.append(cb[0])
+                if sec('body-start') is not None:
+                    out += splice_toks('\n' + sec('body-start'))
+                out += _desugar(cb[1:-1], spec, ctr, dropped, used)
+                if sec('body-end') is not None:
+                    out += splice_toks('\n' + sec('body-end'))
+                out.append(cb[-1])
+            else:
+                out += lit('{', 'T12')
+                if sec('body-start') is not None:
+                    out += splice_toks('\n' + sec('body-start'))
+                out += _desugar(cb, spec, ctr, dropped, used) + lit(';', 'T12')
+                if sec('body-end') is not None:
+                    out += splice_toks('\n' + sec('body-end'))
+                out += lit('}', 'T12')
+            out += lit(', None => { break; } } }', 'T12')
+            if sec('post') is not None:
+                out += splice_toks('\n' + sec('post'))
+            out += lit(' }', 'T12')
+            if tmp is not None:
+                out += lit(' }', 'T12')
+            i = fe['semi'] + 1
+            continue
         if t.origin == 'orig' and t.kind == 'ident' and t.text in ('for', 'while', 'loop'):
             nx = next_sig(body, i + 1)
             pv = prev_sig(body, i - 1)
@@ -462,6 +581,8 @@ def _desugar(body, spec, ctr, dropped, used):
                 if j >= n:
                     raise Unsupported('for without in (line %s)' % t.line)
                 pat = body[i + 1:j]
+                if hasattr(ctr, 'pats'):
+                    ctr.pats[k] = [x.text for x in pat if x.kind == 'ident' and x.text not in ('mut', 'ref', '_')]
                 e = j + 1
                 while e < n:
                     if body[e].kind == 'punct' and body[e].text in ('(', '['):
@@ -488,9 +609,27 @@ def _desugar(body, spec, ctr, dropped, used):
                 if lsp is not None:
                     out += splice_toks(lsp)
                 out += lit('{ match %s.next() { Some(' % it, 'T3')
-                out += _trim(pat)
+                # reference patterns (`for (&a, &to) in ..`): Verus has none. `&x` in the pattern binds x to a copy of what
+                # the reference points to: x is bound to the reference instead and `let x = *x;` opens the body (T3)
+                pat2, derefs, pi = [], [], 0
+                ptoks = _trim(pat)
+                while pi < len(ptoks):
+                    x = ptoks[pi]
+                    nxp = next_sig(ptoks, pi + 1)
+                    if x.kind == 'punct' and x.text == '&' and nxp < len(ptoks) and ptoks[nxp].kind == 'ident' \
+                            and ptoks[nxp].text not in ('mut', 'ref'):
+                        # the binder keeps its place in the pattern (now bound to the reference) and is shadowed by the copy
+                        dropped.append(('T3', '& in a for pattern', [x]))
+                        derefs.append(ptoks[nxp].text)
+                        pi += 1
+                        continue
+                    pat2.append(x)
+                    pi += 1
+                out += pat2
                 out += lit(') => ', 'T3')
                 out.append(body[e])
+                for nm in derefs:
+                    out += lit('\nlet %s = *%s;' % (nm, nm), 'T3')
                 if lbs is not None:
                     out += splice_toks('\n' + lbs)
                 out += _desugar(inner, spec, ctr, dropped, used)
@@ -727,7 +866,7 @@ def _apply_anchor(toks, where, fragment, text, fname):
         fragment, o = fragment.split('\x00', 1)
         ordinal = int(o)
     alts = [a.strip() for a in fragment.split('>> | <<')]
-    idx = [i for i, t in enumerate(toks) if t.sig() and t.origin in ('orig', 'T3', 'T8', 'T9')]
+    idx = [i for i, t in enumerate(toks) if t.sig() and t.origin in ('orig', 'T3', 'T8', 'T9', 'T12')]
     texts = [toks[i].text for i in idx]
     chosen = None
     counts = []
@@ -806,24 +945,12 @@ class LetList(list):
 
 
 def _collect_for_patterns(body):
-    """loop ordinal (pre-order over for/while/loop, as in _desugar) -> identifiers of the `for` pattern, in order.
-    `$for<K>#i` in overlay text stands for the i-th of them."""
-    pats, k = {}, 0
-    for i, t in enumerate(body):
-        if t.origin == 'orig' and t.kind == 'ident' and t.text in ('for', 'while', 'loop'):
-            nx = next_sig(body, i + 1)
-            pv = prev_sig(body, i - 1)
-            if t.text == 'for' and nx < len(body) and body[nx].text == '<':
-                continue
-            if pv >= 0 and body[pv].text in ('.', '::'):
-                continue
-            if t.text == 'for':
-                j = i + 1
-                while j < len(body) and not _is_kw(body[j], 'in'):
-                    j += 1
-                pats[k] = [x.text for x in body[i + 1:j] if x.kind == 'ident' and x.text not in ('mut', 'ref', '_')]
-            k += 1
-    return pats
+    """loop ordinal (pre-order over for/while/loop and for_each statements, exactly as _desugar numbers them: found by
+    a dry run of it) -> identifiers of the loop pattern, in order. `$for<K>#i` in overlay text stands for the i-th."""
+    ctr = LoopCounter()
+    ctr.pats = {}
+    _desugar(list(body), None, ctr, [], set())
+    return ctr.pats
 
 
 def _subst_placeholders(text, lets, fname):
@@ -937,6 +1064,26 @@ def _rename_idents(text, mapping):
     return render([Tok(t.kind, mapping.get(t.text, t.text) if t.kind == 'ident' else t.text) for t in tokenize(text)])
 
 
+def _rename_vars(text, mapping):
+    """like _rename_idents, for names of VARIABLES: an identifier behind `.` (a field or a method), in front of `(` or
+    `::` (a function, a path) or in front of `:` inside a struct literal is something else of the same name"""
+    if not mapping:
+        return text
+    toks = tokenize(text)
+    out = []
+    for i, t in enumerate(toks):
+        tx = t.text
+        if t.kind == 'ident' and tx in mapping:
+            pv = prev_sig(toks, i - 1)
+            nx = next_sig(toks, i + 1)
+            is_member = pv >= 0 and toks[pv].text == '.'
+            is_call = nx < len(toks) and toks[nx].text in ('(', '::')
+            if not is_member and not is_call:
+                tx = mapping[tx]
+        out.append(Tok(t.kind, tx))
+    return render(out)
+
+
 def _map_params(spec, item):
     """the overlay names the parameters it was written against (params=..); if they have been renamed, rename them in the
     overlay text as well"""
@@ -970,7 +1117,7 @@ def _rename_outside_placeholders(text, mapping):
         if t2 == text:
             break
         text = t2
-    text = _rename_idents(text, mapping)
+    text = _rename_vars(text, mapping)
     for _round in range(8):
         t2 = re.sub(r'\x01(\d+)\x01', lambda m: store[int(m.group(1))], text)
         if t2 == text:
@@ -1164,7 +1311,7 @@ def extract_fn(item, file, impl_key, spec, twin_false=False):
         raise Unsupported('provenance check failed for %s: emitted source tokens are not the source minus T2/T3 spans, '
                           'in source order' % item.name)
     for t in out:
-        if t.origin not in ('orig', 'T3', 'T6', 'T7', 'T8', 'T9', 'T10'):
+        if t.origin not in ('orig', 'T3', 'T6', 'T7', 'T8', 'T9', 'T10', 'T12'):
             raise Unsupported('provenance: unknown origin %s' % t.origin)
     rt = [t.text for t in tokenize(render(out)) if t.sig()]
     if rt != [t.text for t in out if t.sig()]:
